@@ -6,6 +6,7 @@ import Fx.Index
 import Fx.Walk
 import Fx.Lemmas.ParseNorm
 import Fx.Lemmas.ParseAst
+import Fx.Lemmas.PegLimit
 namespace Fx.C12
 open Fx
 
@@ -449,6 +450,36 @@ theorem C12_ast_closed_form (s : Parse.Spec) (h : s.ok = true) :
       simp only [Out.bind_ok]
       cases (itemsOf (ns ++ [.eof])).bind Ast.ofItems <;> rfl
   · exact .inl (by rw [show Peg.parseWith Grammar.xdr "item" s.text = _ from hp])
+
+
+/-- **the same two theorems without a budget.**  `Ast.newLim` is the front end over the parser's budget-free answer
+    (Lemmas/PegLimit: every text has exactly one, because the regenerated grammar is a DAG); it is never `outOfFuel`, and
+    the executable `Ast.new` — the one the T3 tie runs against the real `Ast::new` — equals it whenever it answers. -/
+theorem C12_ast_from_declarations_total (s : Parse.Spec) (h : s.ok = true) :
+    Ast.newLim (String.ofList s.text) = frontOf (Ast.ofPairs [s.norm.root]) := by
+  unfold Ast.newLim
+  rw [String.toList_ofList, Peg.parseLim_of_ROk (Parse.spec_parses s h)]
+  have hw : Ast.ofPairs [s.root] = Ast.ofPairs [s.norm.root] := by
+    simp only [Ast.ofPairs, Parse.walk_sim _ _ (Parse.spec_sim s h)]
+  simp only [hw]
+  cases Ast.ofPairs [s.norm.root] <;> rfl
+
+theorem C12_ast_closed_form_total (s : Parse.Spec) (h : s.ok = true) :
+    Ast.newLim (String.ofList s.text) =
+      frontOf ((mapOut (fun dl : Parse.Decl × Parse.Layout => dl.1.node) s.decls).bind fun ns =>
+        (itemsOf (ns ++ [.eof])).bind Ast.ofItems) := by
+  unfold Ast.newLim
+  rw [String.toList_ofList, Peg.parseLim_of_ROk (Parse.spec_parses s h)]
+  simp only [Ast.ofPairs, Parse.walk_root s h]
+  cases mapOut (fun dl : Parse.Decl × Parse.Layout => dl.1.node) s.decls with
+  | panicAt f m => rfl
+  | ok ns =>
+    simp only [Out.bind_ok]
+    cases (itemsOf (ns ++ [.eof])).bind Ast.ofItems <;> rfl
+
+/-- the executable front end and the budget-free one: equal wherever the executable one answers -/
+theorem C12_executable_front_end_agrees (txt : String) (h : Ast.new txt ≠ .outOfFuel) : Ast.new txt = Ast.newLim txt :=
+  Ast.new_eq_newLim txt h
 
 section example_closed_form
 open Parse
